@@ -235,6 +235,32 @@ fn cases(thorough: bool) -> Vec<Case> {
             }
         }
     }
+    // far from the time origin (x0 = 1e6 + 0.3, both directions, dense output queried on the ends of the interval and
+    // inside), and a span of 1e-13 with 1001 requested times (spacing 1e-16)
+    for m in M6 {
+        for pid in ["decay", "osc"] {
+            let p = problem(pid, &[]);
+            for backward in [false, true] {
+                let (a, b) = (1e6 + 0.3, 1e6 + 3.3);
+                let (x0, xend) = if backward { (b, a) } else { (a, b) };
+                let mut c = Cfg::new(m, x0, xend, &p.y0);
+                c.rtol = Tol::S(1e-6);
+                c.atol = Tol::S(1e-9);
+                c.dense = true;
+                let sol_ts = vec![x0, xend, a + 0.37 * 3.0, a + 1.5, a + 0.97 * 3.0];
+                v.push(Case { id: format!("case:{}:{}@1e6{}:none:dense", mname(m), pid, if backward { "-backward" } else { "" }), prob: pid.to_string(), args: vec![], cfg: c, jac: "none", events: vec![], sol_ts, pattern: None });
+            }
+        }
+        let p = problem("decay", &[]);
+        for sgn in [1.0, -1.0] {
+            let span = sgn * 1e-13;
+            let mut c = Cfg::new(m, 0.0, span, &p.y0);
+            c.rtol = Tol::S(1e-6);
+            c.atol = Tol::S(1e-9);
+            c.t_eval = Some((0..=1000).map(|i| span * i as f64 / 1000.0).collect());
+            v.push(Case { id: format!("case:{}:decay@1e-13{}:none:t_eval1001", mname(m), if sgn < 0.0 { "-backward" } else { "" }), prob: "decay".into(), args: vec![], cfg: c, jac: "none", events: vec![], sol_ts: vec![], pattern: None });
+        }
+    }
     // every sparsity pattern up to 3x3 (4x4 thorough), and for n = 5, 6, 8 every union of at most
     // three diagonals (banded, arrow-free structured patterns whose groups hold three and more columns)
     let nmax = if thorough { 4 } else { 3 };
